@@ -18,14 +18,13 @@ FIXES = [
     ('4b6fb93', 'C18', 'D10 form feed line IndexError'),
     ('537c9db', 'C18', 'D11 unknown group name in replacement'),
     ('e1e8052', 'C18', 'D12 integer too large for text'),
-    ('9626e28+d7fc2e4', 'C14', 'D13 spooled file rollover position (D20, a later repair of the adjacent lines, is reverted first)', 'C14-e'),
+    ('d7fc2e4', 'C14', 'D13 spooled file rollover position', 'C14-e'),
     ('2b4e2ef+2afec72', 'C06', 'D14 line-leading && outside parentheses (with the later D15)'),
     ('2b4e2ef', 'C06', 'D15 operands inside parentheses'),
     ('8b7a4dd', 'C10', 'D16 flush before a process writes to the output file'),
     ('5780fb7', 'C10', 'D16b flush before a transforming process writes to the output file'),
     ('4cc3a30', 'C17', 'D17 line-nums range resolved once for all cases of a suite'),
     ('775fa4d', 'C18', 'D18 _hds of SDV validators never set'),
-    ('9626e28', 'C14', 'D20 spill file of the spooled buffer read back with newline translation'),
     ('ffb3fe6', 'C16', 'D19 suite file reference whose stat fails with another OSError than FileNotFoundError'),
 ]
 
